@@ -1,0 +1,39 @@
+//go:build verif
+
+package traversal
+
+import (
+	"github.com/anacrolix/dht/v2/types"
+)
+
+// Read-only view of an Operation for the verification harness in /verif. Compiled only with
+// -tags verif.
+type VerifSnapshot struct {
+	Outstanding int
+	// In the order the operation would pop them.
+	Unqueried []types.AddrMaybeId
+	Queried   []string
+	HaveQuery bool
+	Stopping  bool
+	Stopped   bool
+}
+
+func (op *Operation) VerifSnapshot() (ret VerifSnapshot) {
+	op.mu.Lock()
+	defer op.mu.Unlock()
+	ret.Outstanding = op.outstanding
+	// The container is persistent: walking a copy leaves op.unqueried untouched.
+	u := op.unqueried
+	for u.Len() > 0 {
+		n := u.Next()
+		ret.Unqueried = append(ret.Unqueried, n)
+		u = u.Delete(n)
+	}
+	for a := range op.queried {
+		ret.Queried = append(ret.Queried, string(a))
+	}
+	ret.HaveQuery = op.haveQuery()
+	ret.Stopping = op.stopping.IsSet()
+	ret.Stopped = op.stopped.IsSet()
+	return
+}
